@@ -3,6 +3,8 @@ fake substrate, with a scripted relay.  Produces an observation record that
 the C01/C03/C12/C13 oracles judge.  Nothing here decides a verdict."""
 from __future__ import annotations
 
+import hashlib
+
 import gevent
 
 from sim import fs as simfs
@@ -54,15 +56,15 @@ def make_envelope(m):
 class Substrate(object):
     """the durable thing under a backend (dict/fs/redis/objects)"""
 
-    def __init__(self, world, scn):
+    def __init__(self, world, scn, fs=None):
         self.world = world
         self.kind = scn['backend']
         lat = scn.get('store_lat')
         if self.kind == 'dict':
             self.env_db, self.meta_db = {}, {}
         elif self.kind == 'disk':
-            self.fs = simfs.SimFS(world, latency=tuple(lat) if lat else
-                                  simfs.LAT_DISK)
+            self.fs = fs or simfs.SimFS(world, latency=tuple(lat) if lat
+                                        else simfs.LAT_DISK)
             for d in ('/q/env', '/q/meta', '/q/tmp'):
                 self.fs.mkdir(d)
             simfs.install(self.fs)
@@ -107,14 +109,19 @@ class Substrate(object):
                 if p.startswith('/q/env/') and p.endswith('.env'):
                     id = p[len('/q/env/'):-4]
                     mp = '/q/meta/%s.meta' % id
-                    if mp not in self.fs.files:
-                        out[id] = {'ts': None, 'nometa': True, 'rcpts': [],
-                                   'k': marker_of(pickle.loads(bytes(b)))}
-                        continue
-                    meta = pickle.loads(bytes(self.fs.files[mp]))
-                    out[id] = rec(pickle.loads(bytes(b)), meta['timestamp'],
-                                  meta['attempts'],
-                                  meta.get('delivered_indexes', ()))
+                    try:
+                        env = pickle.loads(bytes(b))
+                        if mp not in self.fs.files:
+                            out[id] = {'ts': None, 'nometa': True, 'rcpts': [],
+                                       'k': marker_of(env)}
+                            continue
+                        meta = pickle.loads(bytes(self.fs.files[mp]))
+                        out[id] = rec(env, meta['timestamp'],
+                                      meta['attempts'],
+                                      meta.get('delivered_indexes', ()))
+                    except Exception as e:
+                        out[id] = {'ts': None, 'corrupt': type(e).__name__,
+                                   'rcpts': [], 'k': None}
         elif self.kind == 'redis':
             for key, h in self.redis.data.items():
                 if not isinstance(h, dict) or b'envelope' not in h:
@@ -274,13 +281,13 @@ def script_relay_class():
     from slimta.relay import Relay, PermanentRelayError, TransientRelayError
 
     class ScriptRelay(Relay):
-        def __init__(self, world, scn, obs):
+        def __init__(self, world, scn, obs, counts=None, bounces=0):
             Relay.__init__(self)
             self.world = world
             self.scn = scn
             self.obs = obs
-            self.count = {}
-            self.bounces = 0
+            self.count = dict(counts or {})
+            self.bounces = bounces
 
         def _spec(self, k, envelope):
             if k is None:
@@ -298,7 +305,13 @@ def script_relay_class():
             k = marker_of(envelope)
             (mk, n), spec = self._spec(k, envelope)
             rcpts = list(envelope.recipients)
+            try:
+                hd, bd = envelope.flatten()
+                content = hashlib.sha1(hd + bd).hexdigest()
+            except Exception as e:
+                content = 'unflattenable:%s' % type(e).__name__
             rec = {'k': mk, 'n': n, 'attempts_arg': attempts, 'rcpts': rcpts,
+                   'content': content,
                    't0': w.loop._now, 't1': None, 'truth': None,
                    'start_seq': w.counter('attseq'), 'end_seq': None,
                    'shape': spec['t'], 'sender': envelope.sender,
@@ -397,12 +410,13 @@ def new_obs():
             'final': None, 'internals': None}
 
 
-def build(world, scn, obs):
+def build(world, scn, obs, fs=None, counts=None, bounces=0):
     """returns dict(queue, bounce_queue, store, relay, substrate)"""
-    sub = Substrate(world, scn)
+    sub = Substrate(world, scn, fs=fs)
     OS = observed_store_class()
     store = OS(sub.new_storage(), obs, world, 's')
-    relay = script_relay_class()(world, scn, obs)
+    relay = script_relay_class()(world, scn, obs, counts=counts,
+                                 bounces=bounces)
     Q = obs_queue_class()
     table = scn['backoff']
 
